@@ -27,8 +27,12 @@ def gen_section_body(rng, sec, plant):
         planted = pos
     elif plant == 'tifa':
         pos = rng.randrange(len(lines) + 1)
-        k = rng.randrange(5)
-        if k == 0:
+        k = rng.randrange(6)
+        if k == 5:
+            # an issue about a function PARAMETER (located at the def), in a function that is called
+            lines[pos:pos] = ['def up%d(keep, unusedparam%d):' % (sec, sec), '    return keep', 'print(up%d(1, 2))' % sec]
+            planted = pos
+        elif k == 0:
             # issues that TIFA locates through an explicitly given node
             lines[pos:pos] = ['for q%d in 5:' % sec, '    pass']
             planted = pos
@@ -177,7 +181,9 @@ def oracle(case, res):
                              'run': None}[op]
                 if f['category'] not in ('syntax', 'algorithmic', 'runtime'):
                     continue
-                if op == 'tifa' and f['label'] not in want_kind:
+                if op == 'tifa' and f['label'] == 'unused_variable' and str(f.get('fields', {}).get('name', '')).startswith('unusedparam'):
+                    pass      # the planted unused parameter
+                elif op == 'tifa' and f['label'] not in want_kind:
                     continue
                 kinds_ok = {'verify': ('syntax',), 'tifa': ('tifa',), 'run': ('runtime', 'tifa', 'syntax')}[op]
                 planted = [l for s, kd, l in case['plants'] if kd in kinds_ok
